@@ -15,7 +15,8 @@ Inductive api_call : Set := ApiNew | ApiOnline | ApiOffline | ApiPassive.
 Record view : Set := mkView {
   v_conn : conn_state; v_in_ring : bool; v_kind : state_kind;
   v_ns : Z; v_ps : Z; v_las_valid : bool; v_active : list Z;
-  v_gap_due : bool   (* GAP cursor of the station is in its polling phase (GapState::DoPoll), through the hook *) }.
+  v_gap_due : bool;  (* GAP cursor of the station is in its polling phase (GapState::DoPoll), through the hook *)
+  v_scan_await : bool  (* ClaimToken with step ScanAwaitResponse, through the hook *) }.
 
 Record pstep : Set := mkPStep {
   s_now : Z; s_busy : bool; s_rx : bytes;
@@ -37,18 +38,19 @@ Inductive rule : Set :=
 (* C11 *)
 | R11_accept_while_listening | R11_accept_without_token | R11_accept_from_stranger
 | R11_retry_too_early | R11_too_many_retries | R11_removed_too_early | R11_heard_but_supervising
+| R11_supervision_never_ends
 (* C12 *)
 | R12_gap_poll_outside_gap | R12_two_gap_polls_per_visit | R12_reply_without_request | R12_reply_untruthful
 | R12_reply_from_wrong_state
 | R12_found_not_successor | R12_found_not_next_token | R12_successor_changed_without_ready_reply | R12_sweep_bound
-| R12_post_claim_scan_incomplete
+| R12_post_claim_scan_incomplete | R12_gap_wait_never_ends
 (* C13 *)
 | R13_low_prio_after_hold_time | R13_second_cycle_after_hold_time | R13_high_prio_inside_hold_time
 (* C15 *)
 | R15_transmit_without_token | R15_transmit_while_outstanding | R15_round_robin | R15_reply_not_requested
 | R15_reply_invalid | R15_timeout_not_requested | R15_await_without_request
 | R15_asked_after_all_declined | R15_not_passed_after_all_declined | R15_passed_before_all_declined
-| R15_cycle_after_hold_time.
+| R15_cycle_after_hold_time | R15_no_reply_no_timeout.
 
 Inductive pid : Set := PC01 | PC05 | PC06 | PC11 | PC12 | PC13 | PC15.
 Definition rule_prop (r : rule) : pid :=
@@ -57,16 +59,17 @@ Definition rule_prop (r : rule) : pid :=
   | R05_panic | R05_timeout => PC05
   | R06_no_claim_after_timeout => PC06
   | R11_accept_while_listening | R11_accept_without_token | R11_accept_from_stranger
-  | R11_retry_too_early | R11_too_many_retries | R11_removed_too_early | R11_heard_but_supervising => PC11
+  | R11_retry_too_early | R11_too_many_retries | R11_removed_too_early | R11_heard_but_supervising
+  | R11_supervision_never_ends => PC11
   | R12_gap_poll_outside_gap | R12_two_gap_polls_per_visit | R12_reply_without_request | R12_reply_untruthful
   | R12_reply_from_wrong_state
   | R12_found_not_successor | R12_found_not_next_token | R12_successor_changed_without_ready_reply | R12_sweep_bound
-  | R12_post_claim_scan_incomplete => PC12
+  | R12_post_claim_scan_incomplete | R12_gap_wait_never_ends => PC12
   | R13_low_prio_after_hold_time | R13_second_cycle_after_hold_time | R13_high_prio_inside_hold_time => PC13
   | R15_transmit_without_token | R15_transmit_while_outstanding | R15_round_robin | R15_reply_not_requested
   | R15_reply_invalid | R15_timeout_not_requested | R15_await_without_request
   | R15_asked_after_all_declined | R15_not_passed_after_all_declined | R15_passed_before_all_declined
-  | R15_cycle_after_hold_time => PC15
+  | R15_cycle_after_hold_time | R15_no_reply_no_timeout => PC15
   end.
 
 (* ------------------------------------------------------------------------------------------ *)
@@ -183,7 +186,8 @@ Definition mon_poll (p : params) (napps : nat) (m : mon) (s : pstep) : mon * lis
   let slot := slot_time p in
   let silent_for (d : Z) : bool := match lba with Some l => l + d <? now | None => true end in
   let txt := match s_tx s with Some w => decode_one w | None => None end in
-  let tels := delivered (s_rx s) in
+  (* only needed (and only computed) when the station consumed something in this poll *)
+  let tels := if Nat.eqb (s_consumed s) 0 then [] else delivered (s_rx s) in
   let heard := (negb (Nat.eqb (s_consumed s) 0)) && match tels with _ :: _ => true | [] => false end in
   let lastt := if Nat.eqb (s_consumed s) 0 then None else last_delivered (s_rx s) in
   (* ------------------------------------------------ C01 *)
@@ -382,11 +386,16 @@ Record mon2 : Set := mkMon2 {
   h_end : Z;              (* C13: end of the hold time of the current visit *)
   g_scan : option (list Z);   (* C12: after a claim, the GAP addresses the post-claim scan still has to poll *)
   r_turn : nat;           (* C15: whose turn it is (next_application) *)
-  r_decl : nat            (* C15: applications that have declined in this visit *)
+  r_decl : nat;           (* C15: applications that have declined in this visit *)
+  l_ref : option Z;       (* liveness: latest instant at which the station can have seen anything happen
+                             (RX growth, tx busy, own transmission end, consumption of received data) *)
+  l_txend : option Z;     (* liveness: predicted end of the station's last transmission *)
+  l_spur : bool           (* liveness: a telegram was consumed with bytes left behind - the station counts
+                             them as new at its next poll that looks at the receive buffer *)
 }.
 
 Definition addr_count : nat := 126.
-Definition mon2_reset : mon2 := mkMon2 None None 0 (repeat 0%nat addr_count) 0 None 0 0.
+Definition mon2_reset : mon2 := mkMon2 None None 0 (repeat 0%nat addr_count) 0 None 0 0 None None false.
 
 Fixpoint set_nth_nat (l : list nat) (i : nat) (v : nat) : list nat :=
   match l, i with
@@ -539,8 +548,40 @@ Definition mon_poll2 (p : params) (napps : nat) (m : mon) (g : mon2) (s : pstep)
     else [] in
   let turn2 := if state_kind_eqb k1 KOffline then 0%nat else turn1 in
   let decl2 := if in_vis k1 then (if in_vis k0 && negb self_pass then decl1 else 0%nat) else 0%nat in
-  (mkMon2 wait expect visit last2 hend scan turn2 decl2,
-   e_found ++ e_tok ++ e_sweep ++ e13 ++ e_scan ++ e_rr ++ e_end).
+  (* ---- liveness of the waiting states (C12 GAP waits, C11 supervision, C15 reply wait) ----
+     While the bus brings nothing new, the wait must end at the first poll later than one slot time
+     after the last instant at which the station can have seen anything happen. *)
+  let grew := Nat.ltb (m_left m) (length (s_rx s)) in
+  let tx_end := match s_tx s with
+                | Some w => Some (now + bits_to_time (p_baud p) (prop_bits_per_byte * Zlen w))
+                | None => None
+                end in
+  let ongoing := match l_txend g with Some e => now <=? e | None => false end in
+  let looks := negb (s_busy s) && negb ongoing in          (* the poll gets as far as the receive buffer *)
+  let spur_now := l_spur g && looks && match s_rx s with [] => false | _ => true end in
+  let consumed := negb (Nat.eqb (s_consumed s) 0) in
+  let quiet := looks && negb grew && negb spur_now in
+  let waiting_c12 := state_kind_eqb k0 KAwaitStatusResponse || (state_kind_eqb k0 KClaimToken && v_scan_await pre) in
+  let acted := consumed || negb (state_kind_eqb k1 k0) ||
+               match s_tx s with Some _ => true | None => false end ||
+               match s_calls s with [] => false | _ => true end ||
+               (state_kind_eqb k0 KClaimToken && negb (v_scan_await post)) in
+  let expired := match l_ref g with Some r => r + slot_time p <? now | None => false end in
+  let e_live :=
+    if quiet && expired && negb acted then
+      (if waiting_c12 then [R12_gap_wait_never_ends] else []) ++
+      (if state_kind_eqb k0 KCheckTokenPass then [R11_supervision_never_ends] else []) ++
+      (if state_kind_eqb k0 KAwaitDataResponse then [R15_no_reply_no_timeout] else [])
+    else [] in
+  let happened := grew || s_busy s || consumed || spur_now in
+  let ref1 := if happened then Some (zmax_opt (l_ref g) now)
+              else match l_ref g with Some r => Some r | None => Some now end in
+  let ref2 := match tx_end with Some e => Some (zmax_opt ref1 e) | None => ref1 end in
+  let txend := match tx_end with Some e => Some e | None => l_txend g end in
+  let spur := if consumed then Nat.ltb (s_consumed s) (length (s_rx s))
+              else if looks then false else (l_spur g || grew) in   (* growth during a poll that does not look is seen later *)
+  (mkMon2 wait expect visit last2 hend scan turn2 decl2 ref2 txend spur,
+   e_found ++ e_tok ++ e_sweep ++ e13 ++ e_scan ++ e_rr ++ e_end ++ e_live).
 
 (* ---- whole transcript ---- *)
 (* accumulator: monitor state, the API call that was the previous event (if any), violations *)
